@@ -45,26 +45,8 @@ theorem src_timestamp_from_datetime (us : Int) : Src.timestamp_from_datetime us 
 theorem src_timestamp_to_datetime (s n : Int) : Src.timestamp_to_datetime s n = .ok (tsJoin s n) :=
   SrcTie.timestamp_to_datetime_eq s n
 
-/-- `_Timestamp.timestamp_to_json` as written: its float arithmetic on `dt.microsecond`
-    (`nanos = dt.microsecond * 1e3`, `nanos % 1e9 == 0`, `int(nanos // 1e6)` …) stays within
-    the exact range of doubles, never reaches the final `{nanos:09d}` branch (which would
-    raise ValueError), and appends to the date-time text no fraction / 3 / 6 digits exactly
-    as the model's `tsFrac`.  The bound is the invariant of `datetime.microsecond`; it is
-    needed (beyond it `nanos % 1e9` wraps).  The date-time text itself is not modelled. -/
-theorem src_timestamp_to_json_frac (u : Nat) (h : u < 1000000) :
-    Src.timestamp_to_json_frac (u : Int) = .ok ((tsFrac u).map fun p => ((p.1 : Int), (p.2 : Int))) :=
-  SrcTie.timestamp_to_json_frac_eq u h
-
-/-- **JSON, of the source as written**: the Timestamp fraction has 0, 3 or 6 digits and
-    denotes the microseconds exactly -/
-theorem src_ts_frac_exact (u : Nat) (h : u < 1000000) :
-    (Src.timestamp_to_json_frac (u : Int) = .ok none ∧ u = 0)
-    ∨ (∃ nd d : Nat, Src.timestamp_to_json_frac (u : Int) = .ok (some ((nd : Int), (d : Int)))
-        ∧ (nd = 3 ∨ nd = 6) ∧ d < 10 ^ nd ∧ d * 10 ^ (6 - nd) = u ∧ u ≠ 0) := by
-  rw [src_timestamp_to_json_frac u h]
-  rcases ts_frac_exact u h with ⟨h1, h2⟩ | ⟨nd, d, h1, h2⟩
-  · left; rw [h1]; exact ⟨rfl, h2⟩
-  · right; exact ⟨nd, d, by rw [h1]; rfl, h2⟩
+/- (`timestamp_to_json`: the whole method is tied in Props/C15SrcJson.lean — `src_timestamp_to_json`,
+   `src_timestamp_json_form`: 0 / 3 / 6 fractional digits denoting the microseconds exactly) -/
 
 /-- **decodes back to the identical value, stated of the source as written**:
     `to_datetime` applied to the message `from_datetime` builds returns the datetime -/
@@ -115,7 +97,5 @@ example : Src.timestamp_from_datetime (-1) = .ok (-1, 999999000) := by decide
 example : Src.timestamp_to_datetime (-1) 999999999 = .ok (-1) := by decide
 example : Src.duration_delta_to_json (-1500000) = .ok (true, 1, 3, 500) := by decide
 example : Src.duration_delta_to_json 1 = .ok (false, 0, 6, 1) := by decide
-example : Src.timestamp_to_json_frac 500000 = .ok (some (3, 500)) := by decide
-example : Src.timestamp_to_json_frac 1 = .ok (some (6, 1)) := by decide
 
 end Bp.C15
